@@ -1,7 +1,8 @@
 (* extraction of the C10 run-time monitor model (what the strace oracle accepts) and of the save-path model
-   (where save_dict writes for a file / the user dictionary); ExtrOcamlBasic only *)
+   (where save_dict writes for a file / the user dictionary) and of the settings-to-paths model
+   (EffectsConfig.parse_render: Config::from_lsp_config + try_resolve); ExtrOcamlBasic only *)
 Require Extraction.
 Require Import ExtrOcamlBasic.
-Require Import Base EffectsBase Effects EffectsSave.
+Require Import Base EffectsBase Effects EffectsSave EffectsConfig.
 Extraction Language OCaml.
-Extraction "../ocaml/gen/c10_model.ml" run_judge mkcfg loopback_bytes file_dict_plan user_dict_plan.
+Extraction "../ocaml/gen/c10_model.ml" run_judge mkcfg loopback_bytes file_dict_plan user_dict_plan parse_render.
